@@ -906,6 +906,37 @@ private:
         same_contents(map, mirror2, "source of the assignments (map) changed: k, got, expected");
         same_contents(mem, mirror, "source of the assignments (mem) changed: k, got, expected");
 
+        // assignment from a view of the tensor's OWN buffer (first-axis slices, constant and mutable views): the result
+        // holds exactly the slice's elements (the library itself shrinks tensors this way)
+        for (const auto& [b, e] : slices())
+        {
+            dims_t<R> want = m_dims;
+            want[0]        = e - b;
+            const auto off = b * m_stride[0];
+            const auto n   = (e - b) * m_stride[0];
+            {
+                tmem self(mem);
+                self = std::as_const(self).slice(b, e);
+                REQ(self.dims() == want, "convert/self-assign/dims", "mem = cmap of itself: b, e, first extent", b, e, self.template size<0>());
+                for (ts j = 0; j < n; ++j)
+                {
+                    REQ(self.data()[j] == mirror[static_cast<size_t>(off + j)], "convert/self-assign/content",
+                        "mem = const slice(b,e) of itself: b, e, j, got, expected", b, e, j, self.data()[j], mirror[static_cast<size_t>(off + j)]);
+                }
+            }
+            {
+                tmem self(mem);
+                self = self.slice(b, e);
+                REQ(self.dims() == want, "convert/self-assign/dims", "mem = map of itself: b, e, first extent", b, e, self.template size<0>());
+                for (ts j = 0; j < n; ++j)
+                {
+                    REQ(self.data()[j] == mirror[static_cast<size_t>(off + j)], "convert/self-assign/content",
+                        "mem = slice(b,e) of itself: b, e, j, got, expected", b, e, j, self.data()[j], mirror[static_cast<size_t>(off + j)]);
+                }
+            }
+        }
+        same_contents(mem, mirror, "source of the self-assignments (mem) changed: k, got, expected");
+
         // the chain mem -> map -> cmap -> mem
         tmap  chain1(mem);
         tcmap chain2(chain1);
